@@ -83,6 +83,48 @@ def ta_worlds(ms, rnd, n):
     return out
 
 
+# ----------------------------------------------------------------------------------------- balloons worlds
+
+def balloon_types(rnd, ncpu):
+    """A list of user balloon types (the builtin reserved/default types are filled in by the policy)."""
+    menu = [
+        {"name": "dyn", "minCPUs": 0, "maxCPUs": rnd.choice([0, 2, 4]), "namespaces": ["default"],
+         "shareIdleCPUsInSame": rnd.choice(["", "numa", "package", "system"])},
+        {"name": "solo", "preferNewBalloons": True, "minCPUs": 1, "maxCPUs": rnd.choice([1, 2]), "maxBalloons": rnd.choice([0, 2, 3]),
+         "shareIdleCPUsInSame": rnd.choice(["", "system", "core"])},
+        {"name": "pre", "minBalloons": 1, "minCPUs": rnd.choice([1, 2]), "maxCPUs": 4, "namespaces": ["other"],
+         "hideHyperthreads": rnd.random() < 0.3},
+        {"name": "spread", "preferSpreadingPods": True, "minCPUs": 1, "maxBalloons": 2, "namespaces": ["rsv-*"]},
+        {"name": "nomem", "pinMemory": False, "minCPUs": 1, "maxCPUs": 2},
+    ]
+    k = rnd.randint(1, 4)
+    return [copy.deepcopy(t) for t in rnd.sample(menu, k)]
+
+
+def balloons_worlds(ms, rnd, n):
+    out = []
+    names = sorted(ms)
+    for i in range(n):
+        name = names[i % len(names)] if i < 2 * len(names) else rnd.choice(names)
+        m = ms[name]
+        cpus = machine_cpus(m)
+        iso = set(m.get("isolated") or [])
+        cand = [c for c in cpus if c not in iso]
+        cfg = {"reservedResources": {"cpu": "cpuset:%d" % cand[0]} if rnd.random() < 0.7 else {"cpu": "1"},
+               "balloonTypes": balloon_types(rnd, len(cpus)), "showContainersInNrt": True}
+        if rnd.random() < 0.2 and len(cpus) > 4:
+            keep = sorted(set(rnd.sample(cpus, len(cpus) - rnd.randint(1, 2))) | {cand[0]})
+            cfg["availableResources"] = {"cpu": "cpuset:" + ",".join(map(str, keep))}
+        if rnd.random() < 0.1:
+            cfg["pinCPU"] = False
+        if rnd.random() < 0.1:
+            cfg["pinMemory"] = False
+        if rnd.random() < 0.2:
+            cfg["reservedPoolNamespaces"] = ["rsv-x"]
+        out.append({"policy": "balloons", "machine": m, "config": cfg, "name": "B-%s-%d" % (name, i)})
+    return out
+
+
 def pod_class(rnd, policy="ta"):
     qos = rnd.choice(["Guaranteed", "Guaranteed", "Burstable", "Burstable", "BestEffort"])
     ns = rnd.choice(["default"] * 6 + ["kube-system", "rsv-a", "other"])
@@ -102,6 +144,11 @@ def pod_class(rnd, policy="ta"):
         ann[ANN["memtype"]] = rnd.choice(["dram", "pmem", "dram,pmem", "hbm", "mixed"])
     if r() < 0.08:
         ann[ANN["hideht"]] = "true"
+    if policy == "balloons":
+        for k in ("shared", "isol", "rsv", "memtype"):
+            ann.pop(ANN[k], None)
+        if r() < 0.3:
+            ann[ANN["balloon"]] = rnd.choice(["dyn", "solo", "pre", "spread", "nomem", "nosuchtype", "default", "reserved"])
     return {"ns": ns, "qos": qos, "ann": ann}
 
 
